@@ -223,7 +223,8 @@ POOL_RD = [("A", "10.0.0.1"), ("A", "10.0.0.2"), ("TXT", '"x"'), ("TXT", '"y" "z
 
 def h03d(o1: int, n1: int, r1: int, o2: int, n2: int, r2: int, ttl: int) -> bool:
     """UpdateMessage built through add / delete / replace / present / absent renders and parses back to equal sections (ANY / NONE classes, counts), and re-renders identically."""
-    u = dns.update.UpdateMessage("example.", id=9)
+    zclass = dns.rdataclass.from_text(S("zclass") or "IN")
+    u = dns.update.UpdateMessage("example.", rdclass=zclass, id=9)
     for o, n, r in ((o1, n1, r1), (o2, n2, r2))[:S("n")]:
         name = POOL_NAMES[n]
         t, txt = POOL_RD[r]
@@ -254,12 +255,21 @@ def h03d(o1: int, n1: int, r1: int, o2: int, n2: int, r2: int, ttl: int) -> bool
         return False
     if not sections_equal(u, p, strict=S("strict")):
         return False
+    # RFC 2136: whatever class a record carries on the wire (zone class, ANY, NONE), it belongs to the zone's class
+    if p.zone[0].rdclass != zclass:
+        return False
+    for sec in (p.prerequisite, p.update):
+        for rr in sec:
+            if rr.rdclass != zclass:
+                return False
     if counts_match(wire, u) is None:
         return False
     return p.to_wire(want_shuffle=False) == wire
 
 
 def h03d_pre(o1, n1, r1, o2, n2, r2, ttl):
+    if (S("zclass") or "IN") != "IN" and (r1 < 2 or (S("n") == 2 and r2 < 2)):
+        return False  # class-independent record types only (TXT) outside class IN
     ok = 0 <= o1 <= 9 and 0 <= n1 <= 2 and 0 <= r1 <= 3 and 0 <= ttl <= 2**31 - 1
     if S("n") == 2:
         return ok and 0 <= o2 <= 9 and 0 <= n2 <= 2 and 0 <= r2 <= 3 and o1 == S("o1")
@@ -275,6 +285,11 @@ def h03d_shards(tier):
         out.append({"n": 1, "o1": None, "strict": strict, "_timeout": 900, "_path_timeout": 60})
         for o1 in ((0, 3, 7) if tier == "quick" else range(10)):
             out.append({"n": 2, "o1": o1, "strict": strict, "_timeout": 1200, "_path_timeout": 60})
+        # a zone in another class (CH): the ANY / NONE forms must still come back in the zone's class
+        out.append({"n": 1, "o1": None, "strict": strict, "zclass": "CH", "_timeout": 900, "_path_timeout": 60})
+        if tier == "thorough":
+            for o1 in range(10):
+                out.append({"n": 2, "o1": o1, "strict": strict, "zclass": "CH", "_timeout": 1200, "_path_timeout": 60})
     return out
 
 
@@ -342,7 +357,7 @@ HARNESSES = [
             encodes=["dns.update.UpdateMessage.add", "dns.update.UpdateMessage.delete", "dns.update.UpdateMessage.replace", "dns.update.UpdateMessage.present",
                      "dns.update.UpdateMessage.absent", "dns.update.UpdateMessage._parse_rr_header", "dns.update.UpdateMessage._parse_special_rr_header",
                      "dns.rdataset.Rdataset.to_wire"],
-            bound="1 symbolic update operation (10 kinds x 3 names x 4 records), and 2 operations with the first from {add, delete rdata, present rdata} (thorough: all); TTL symbolic",
+            bound="zone class IN (and CH with TXT records); 1 symbolic update operation (10 kinds x 3 names x 4 records), and 2 operations with the first from {add, delete rdata, present rdata} (thorough: all); TTL symbolic",
             stubs=["E1", "E5", "E6", "E8"], outside="longer update scripts"),
     Harness("H03f", h03f, h03f_pre, lambda tier: [{"_timeout": 900, "_path_timeout": 60}], kind="universal",
             encodes=["dns.renderer.Renderer._rollback", "dns.renderer.Renderer._track_size", "dns.name.Name.to_wire"],
